@@ -130,6 +130,34 @@ SCALE = {'risk_ratio': 'log', 'risk_difference': 'lin', 'number_needed_to_treat'
          'incidence_rate_ci': 'lin', 'sensitivity': 'lin', 'specificity': 'lin'}
 
 
+def cell_calc(chk, drv, fn, args, kw):
+    import zepid.calc.utils as cu
+    args = tuple(args)
+    recs = []
+    case = {'fn': fn, 'args': list(args), 'kw': kw, 'data_hash': hash((fn, args, str(kw))),
+            'replay': rp('calc', fn=fn, args=list(args), kw=kw)}
+    for alpha in GRID:
+        r = getattr(cu, fn)(*args, alpha=alpha, **kw)
+        est, lcl, ucl, se = (float(x) for x in r[:4])
+        recs.append({'alpha': alpha, 'est': est, 'se': se, 'lcl': lcl, 'ucl': ucl})
+        if drv is not None and fn not in ('sensitivity', 'specificity'):
+            z = z_of(alpha)
+            if fn in ('risk_ci', 'incidence_rate_ci'):
+                kwd = dict(fn=fn, a=fx(args[0]), b=fx(args[1]), alpha=fx(alpha), px=fx(1 - alpha / 2), pz=fx(z))
+                if fn == 'risk_ci':
+                    kwd['confint'] = kw['confint']
+            else:
+                kwd = dict(fn=fn, a=fx(args[0]), b=fx(args[1]), c=fx(args[2]), d=fx(args[3]), alpha=fx(alpha),
+                           px=fx(1 - alpha / 2), pz=fx(z))
+            rep, line = drv.ask('calc', **kwd)
+            ok = rep['status'] == 'ok' and all(close(unfx(rep[k]), v, rtol=1e-11, atol=1e-14) for k, v in
+                                              zip(('point', 'lower', 'upper', 'se'), (est, lcl, ucl, se)))
+            chk.k(ok, 'generated calculator %s vs implementation' % fn, {'case': case, 'alpha': alpha,
+                                                                      'model': rep})
+    chk.count('calc:' + fn)
+    judge(chk, 'calc.' + fn + (':' + kw['confint'] if kw else ''), SCALE[fn], recs, case)
+
+
 def stream_calculators(chk, drv, rng, tier):
     import zepid.calc.utils as cu
     for _ in range(6 if tier == 'quick' else 60):
@@ -140,28 +168,38 @@ def stream_calculators(chk, drv, rng, tier):
                 [('risk_ci', (a, a + b), {'confint': 'wald'}), ('risk_ci', (a, a + b), {'confint': 'hypergeometric'}),
                  ('incidence_rate_ci', (a, t1), {}), ('sensitivity', (a, a + b), {}), ('specificity', (c, c + d), {})]
         for fn, args, kw in calls:
-            recs = []
-            case = {'fn': fn, 'args': list(args), 'kw': kw, 'data_hash': hash((fn, args, str(kw)))}
-            for alpha in GRID:
-                r = getattr(cu, fn)(*args, alpha=alpha, **kw)
-                est, lcl, ucl, se = (float(x) for x in r[:4])
-                recs.append({'alpha': alpha, 'est': est, 'se': se, 'lcl': lcl, 'ucl': ucl})
-                if drv is not None and fn not in ('sensitivity', 'specificity'):
-                    z = z_of(alpha)
-                    if fn in ('risk_ci', 'incidence_rate_ci'):
-                        kwd = dict(fn=fn, a=fx(args[0]), b=fx(args[1]), alpha=fx(alpha), px=fx(1 - alpha / 2), pz=fx(z))
-                        if fn == 'risk_ci':
-                            kwd['confint'] = kw['confint']
-                    else:
-                        kwd = dict(fn=fn, a=fx(args[0]), b=fx(args[1]), c=fx(args[2]), d=fx(args[3]), alpha=fx(alpha),
-                                   px=fx(1 - alpha / 2), pz=fx(z))
-                    rep, line = drv.ask('calc', **kwd)
-                    ok = rep['status'] == 'ok' and all(close(unfx(rep[k]), v, rtol=1e-11, atol=1e-14) for k, v in
-                                                      zip(('point', 'lower', 'upper', 'se'), (est, lcl, ucl, se)))
-                    chk.k(ok, 'generated calculator %s vs implementation' % fn, {'case': case, 'alpha': alpha,
-                                                                              'model': rep})
-            chk.count('calc:' + fn)
-            judge(chk, 'calc.' + fn + (':' + kw['confint'] if kw else ''), SCALE[fn], recs, case)
+            cell_calc(chk, drv, fn, args, kw)
+
+
+def cell_dtype(chk, fn, args, kw, dt, zero_d, alpha):
+    import zepid.calc.utils as cu
+    args = tuple(args)
+    conv = (lambda v: np.array(v, dtype=dt)) if zero_d else np.dtype(dt).type
+    case = {'stream': 'dtype', 'fn': fn, 'args': list(args), 'kw': kw, 'dtype': dt, 'zero_d': zero_d,
+            'alpha': alpha,
+            'replay': rp('dtype', fn=fn, args=list(args), kw=kw, dt=dt, zero_d=zero_d, alpha=alpha)}
+    chk.case(case, ('dtype', fn, dt, zero_d, args, str(kw)))
+    chk.count('dtype:' + dt + ('/0d' if zero_d else ''))
+    base = [float(x) for x in getattr(cu, fn)(*[float(v) if dt.startswith('float') else v
+                                                 for v in args], alpha=alpha, **kw)[:4]]
+    try:
+        with np.errstate(all='ignore'):
+            got = [float(x) for x in getattr(cu, fn)(*[conv(v) for v in args], alpha=alpha, **kw)[:4]]
+        err = None
+    except Exception as e:      # noqa: BLE001
+        got, err = None, repr(e)
+    case.update(plain=base, got=got, error=err)
+    # float32 inputs are computed in single precision (eps 6e-8); everything else is exact in double
+    rt, at = (2e-5, 2e-6) if dt == 'float32' else (1e-12, 1e-14)
+    cg, cb = got, base
+    if got is not None and fn == 'number_needed_to_treat' and dt == 'float32':
+        # single-precision rounding of RD -/+ z*se is amplified without bound by the reciprocal when a
+        # limit of the risk difference is near 0: compare on the (documented) reciprocal = RD scale
+        cg = [1 / v if v not in (0.0,) and math.isfinite(v) else v for v in got[:3]] + [got[3]]
+        cb = [1 / v if v not in (0.0,) and math.isfinite(v) else v for v in base[:3]] + [base[3]]
+    ok = got is not None and all(close(g, w, rtol=rt, atol=at) for g, w in zip(cg, cb))
+    chk.d(ok, 'count calculator: estimate, se and limits do not depend on the numeric container type '
+          '(numpy fixed-width scalar / 0-d array vs Python number)', case)
 
 
 def stream_dtypes(chk, rng, tier):
@@ -187,31 +225,7 @@ def stream_dtypes(chk, rng, tier):
                          ('specificity', (c, c + d), {'confint': 'wald'}),
                          ('specificity', (c, c + d), {'confint': 'hypergeometric'})]
                 for fn, args, kw in calls:
-                    alpha = float(rng.choice([0.05, 0.2, 0.01]))
-                    case = {'stream': 'dtype', 'fn': fn, 'args': list(args), 'kw': kw, 'dtype': dt, 'zero_d': zero_d,
-                            'alpha': alpha}
-                    chk.case(case, ('dtype', fn, dt, zero_d, args, str(kw)))
-                    chk.count('dtype:' + dt + ('/0d' if zero_d else ''))
-                    base = [float(x) for x in getattr(cu, fn)(*[float(v) if dt.startswith('float') else v
-                                                                 for v in args], alpha=alpha, **kw)[:4]]
-                    try:
-                        with np.errstate(all='ignore'):
-                            got = [float(x) for x in getattr(cu, fn)(*[conv(v) for v in args], alpha=alpha, **kw)[:4]]
-                        err = None
-                    except Exception as e:      # noqa: BLE001
-                        got, err = None, repr(e)
-                    case.update(plain=base, got=got, error=err)
-                    # float32 inputs are computed in single precision (eps 6e-8); everything else is exact in double
-                    rt, at = (2e-5, 2e-6) if dt == 'float32' else (1e-12, 1e-14)
-                    cg, cb = got, base
-                    if got is not None and fn == 'number_needed_to_treat' and dt == 'float32':
-                        # single-precision rounding of RD -/+ z*se is amplified without bound by the reciprocal when a
-                        # limit of the risk difference is near 0: compare on the (documented) reciprocal = RD scale
-                        cg = [1 / v if v not in (0.0,) and math.isfinite(v) else v for v in got[:3]] + [got[3]]
-                        cb = [1 / v if v not in (0.0,) and math.isfinite(v) else v for v in base[:3]] + [base[3]]
-                    ok = got is not None and all(close(g, w, rtol=rt, atol=at) for g, w in zip(cg, cb))
-                    chk.d(ok, 'count calculator: estimate, se and limits do not depend on the numeric container type '
-                          '(numpy fixed-width scalar / 0-d array vs Python number)', case)
+                    cell_dtype(chk, fn, args, kw, dt, zero_d, float(rng.choice([0.05, 0.2, 0.01])))
 
 
 FRAME = {'RiskRatio': [('RiskRatio', 'SD(RR)', 'RR_LCL', 'RR_UCL', 'log'), ('Risk', 'SD(Risk)', 'Risk_LCL', 'Risk_UCL', 'lin')],
@@ -225,6 +239,40 @@ FRAME = {'RiskRatio': [('RiskRatio', 'SD(RR)', 'RR_LCL', 'RR_UCL', 'log'), ('Ris
                                      ('IncRate', 'SD(IncRate)', 'IncRate_LCL', 'IncRate_UCL', 'lin')]}
 
 
+def cell_frame(chk, drv, frame, cls):
+    import zepid
+    df = pd.DataFrame({k: [np.nan if x is None else x for x in v] for k, v in frame.items()})
+    n = len(df)
+    measures = FRAME[cls]
+    store = {}
+    for alpha in GRID:
+        obj = getattr(zepid, cls)(reference=0, alpha=alpha)
+        try:
+            if cls.startswith('Incidence'):
+                obj.fit(df, exposure='exp', outcome='dis', time='t')
+            else:
+                obj.fit(df, exposure='exp', outcome='dis')
+        except ValueError:
+            chk.discard('generated frame has an empty cell (calculator rejects it: C07)')
+            break
+        res = obj.results
+        for (pc, sc, lc, uc, scale) in measures:
+            if pc not in res.columns:
+                continue
+            for lab in res.index:
+                vals = [res.loc[lab, k] for k in (pc, sc, lc, uc)]
+                if any(v is None or (isinstance(v, float) and math.isnan(v)) for v in vals):
+                    continue        # the reference row carries no effect-measure interval
+                store.setdefault((pc, lab, scale), []).append(
+                    {'alpha': alpha, 'est': float(vals[0]), 'se': float(vals[1]), 'lcl': float(vals[2]),
+                     'ucl': float(vals[3])})
+    chk.count('frame:' + cls)
+    for (pc, lab, scale), recs in sorted(store.items()):
+        judge(chk, 'frame.%s:%s' % (cls, pc), scale, recs,
+              {'cls': cls, 'row': lab, 'n': n, 'data_hash': hash(df.to_csv()),
+               'replay': rp('frame', frame=frame, cls=cls)})
+
+
 def stream_frames(chk, drv, rng, tier):
     import zepid
     for _ in range(2 if tier == 'quick' else 12):
@@ -236,33 +284,7 @@ def stream_frames(chk, drv, rng, tier):
         dd[rng.uniform(size=n) < 0.05] = np.nan
         df = pd.DataFrame({'exp': e, 'dis': dd, 't': t})
         for cls, measures in FRAME.items():
-            store = {}
-            for alpha in GRID:
-                obj = getattr(zepid, cls)(reference=0, alpha=alpha)
-                try:
-                    if cls.startswith('Incidence'):
-                        obj.fit(df, exposure='exp', outcome='dis', time='t')
-                    else:
-                        obj.fit(df, exposure='exp', outcome='dis')
-                except ValueError:
-                    chk.discard('generated frame has an empty cell (calculator rejects it: C07)')
-                    break
-                res = obj.results
-                for (pc, sc, lc, uc, scale) in measures:
-                    if pc not in res.columns:
-                        continue
-                    for lab in res.index:
-                        vals = [res.loc[lab, k] for k in (pc, sc, lc, uc)]
-                        if any(v is None or (isinstance(v, float) and math.isnan(v)) for v in vals):
-                            continue        # the reference row carries no effect-measure interval
-                        store.setdefault((pc, lab, scale), []).append(
-                            {'alpha': alpha, 'est': float(vals[0]), 'se': float(vals[1]), 'lcl': float(vals[2]),
-                             'ucl': float(vals[3])})
-            chk.count('frame:' + cls)
-            for (pc, lab, scale), recs in sorted(store.items()):
-                judge(chk, 'frame.%s:%s' % (cls, pc), scale, recs,
-                      {'cls': cls, 'row': lab, 'n': n, 'data_hash': hash(df.to_csv()),
-                       'frame': df.to_dict(orient='list') if n <= 80 else 'n=%d (seeded)' % n})
+            cell_frame(chk, drv, {k: [None if math.isnan(x) else float(x) for x in df[k]] for k in df.columns}, cls)
 
 
 def gen_causal(rng, n, ytype, missing):
@@ -279,6 +301,20 @@ def gen_causal(rng, n, ytype, missing):
         pm = 1 / (1 + np.exp(-(-1.7 + 0.5 * A + 0.4 * L)))
         df.loc[rng.uniform(size=n) < pm, 'Y'] = np.nan
     return df
+
+
+def new_spec(rng, n, ytype, missing):
+    """a data set named by (seed, n, outcome type, missingness): regenerated identically by replay"""
+    return {'data_seed': int(rng.integers(0, 2 ** 31)), 'n': int(n), 'ytype': ytype, 'missing': bool(missing)}
+
+
+def causal_frame(spec):
+    return gen_causal(np.random.default_rng(spec['data_seed']), spec['n'], spec['ytype'], spec['missing'])
+
+
+def rp(cell, **kwargs):
+    """replay descriptor carried by every case of a cell: replay() calls CELLS[cell](**kwargs) again"""
+    return {'cell': cell, 'kwargs': kwargs}
 
 
 def rec_of(alpha, est, se, ci):
@@ -305,73 +341,79 @@ def rec_tuple(r):
     return (r['est'], r['se'], r['lcl'], r['ucl'])
 
 
+def cell_aiptw(chk, drv, spec, weighted):
+    from zepid.causal.doublyrobust import AIPTW
+    ytype, missing = spec['ytype'], spec['missing']
+    df = causal_frame(spec)
+    grid = GRID if not weighted else GRID_TINY
+    store = {}
+    case = {'estimator': 'AIPTW', 'ytype': ytype, 'missing_model': missing, 'weighted': weighted,
+            'n': len(df), 'data_hash': hash(df.to_csv()), 'replay': rp('aiptw', spec=spec, weighted=weighted)}
+    last = None
+    for alpha in grid:
+        m = AIPTW(df if weighted else df.drop(columns='wt'), exposure='A', outcome='Y', alpha=alpha,
+                  weights='wt' if weighted else None)
+        m.exposure_model('L + V', print_results=False)
+        if missing:
+            m.missing_model('A + L', print_results=False)
+        m.outcome_model('A + L + V', print_results=False)
+        m.fit()
+        last = m
+        if ytype == 'binary':
+            store.setdefault(('risk_difference', 'lin'), []).append(
+                rec_of(alpha, m.risk_difference, m.risk_difference_se, m.risk_difference_ci))
+            store.setdefault(('risk_ratio', 'log'), []).append(
+                rec_of(alpha, m.risk_ratio, m.risk_ratio_se, m.risk_ratio_ci))
+        else:
+            store.setdefault(('average_treatment_effect', 'lin'), []).append(
+                rec_of(alpha, m.average_treatment_effect, m.average_treatment_effect_se,
+                       m.average_treatment_effect_ci))
+        if drv is not None and not weighted:
+            for (meas, scale), recs in store.items():
+                r = recs[-1]
+                k_ci(chk, drv, 'AIPTW.' + meas, scale, r['est'], z_of(alpha), r['se'], r['lcl'],
+                     r['ucl'], case)
+    chk.count('aiptw:%s/%s/%s' % (ytype, 'miss' if missing else 'full', 'w' if weighted else 'nw'))
+    for (meas, scale), recs in sorted(store.items()):
+        judge(chk, 'AIPTW:' + meas, scale, recs, case)
+    if not weighted:
+        aiptw_variance(chk, drv, last, ytype, missing, case)
+    # history: coarser models fitted first on the same object, then the final specification
+    hc = dict(case, history='exposure L / outcome A+L fitted first, then respecified and fitted again',
+              alpha=grid[-1])
+    try:
+        h = AIPTW(df if weighted else df.drop(columns='wt'), exposure='A', outcome='Y', alpha=grid[-1],
+                  weights='wt' if weighted else None)
+        h.exposure_model('L', print_results=False)
+        if missing:
+            h.missing_model('A', print_results=False)
+        h.outcome_model('A + L', print_results=False)
+        h.fit()
+        h.exposure_model('L + V', print_results=False)
+        if missing:
+            h.missing_model('A + L', print_results=False)
+        h.outcome_model('A + L + V', print_results=False)
+        h.fit()
+        h.fit()
+        if ytype == 'binary':
+            got = {'risk_difference': (h.risk_difference, h.risk_difference_se) + tuple(h.risk_difference_ci),
+                   'risk_ratio': (h.risk_ratio, h.risk_ratio_se) + tuple(h.risk_ratio_ci)}
+        else:
+            got = {'average_treatment_effect': (h.average_treatment_effect, h.average_treatment_effect_se)
+                   + tuple(h.average_treatment_effect_ci)}
+    except Exception as e:      # noqa: BLE001
+        got = {}
+        hc['error'] = repr(e)
+    history_check(chk, 'AIPTW', got, {meas: rec_tuple(recs[-1]) for (meas, sc), recs in store.items()}, hc)
+
+
 def stream_aiptw(chk, drv, rng, tier):
     from zepid.causal.doublyrobust import AIPTW
     for rep in range(1 if tier == 'quick' else 5):
         for ytype in ('binary', 'continuous'):
             for missing in (False, True):
                 for weighted in (False, True):
-                    df = gen_causal(rng, int(rng.integers(150, 400)), ytype, missing)
-                    grid = GRID if not weighted else GRID_TINY
-                    store = {}
-                    case = {'estimator': 'AIPTW', 'ytype': ytype, 'missing_model': missing, 'weighted': weighted,
-                            'n': len(df), 'data_hash': hash(df.to_csv())}
-                    last = None
-                    for alpha in grid:
-                        m = AIPTW(df if weighted else df.drop(columns='wt'), exposure='A', outcome='Y', alpha=alpha,
-                                  weights='wt' if weighted else None)
-                        m.exposure_model('L + V', print_results=False)
-                        if missing:
-                            m.missing_model('A + L', print_results=False)
-                        m.outcome_model('A + L + V', print_results=False)
-                        m.fit()
-                        last = m
-                        if ytype == 'binary':
-                            store.setdefault(('risk_difference', 'lin'), []).append(
-                                rec_of(alpha, m.risk_difference, m.risk_difference_se, m.risk_difference_ci))
-                            store.setdefault(('risk_ratio', 'log'), []).append(
-                                rec_of(alpha, m.risk_ratio, m.risk_ratio_se, m.risk_ratio_ci))
-                        else:
-                            store.setdefault(('average_treatment_effect', 'lin'), []).append(
-                                rec_of(alpha, m.average_treatment_effect, m.average_treatment_effect_se,
-                                       m.average_treatment_effect_ci))
-                        if drv is not None and not weighted:
-                            for (meas, scale), recs in store.items():
-                                r = recs[-1]
-                                k_ci(chk, drv, 'AIPTW.' + meas, scale, r['est'], z_of(alpha), r['se'], r['lcl'],
-                                     r['ucl'], case)
-                    chk.count('aiptw:%s/%s/%s' % (ytype, 'miss' if missing else 'full', 'w' if weighted else 'nw'))
-                    for (meas, scale), recs in sorted(store.items()):
-                        judge(chk, 'AIPTW:' + meas, scale, recs, case)
-                    if not weighted:
-                        aiptw_variance(chk, drv, last, ytype, missing, case)
-                    # history: coarser models fitted first on the same object, then the final specification
-                    hc = dict(case, history='exposure L / outcome A+L fitted first, then respecified and fitted again',
-                              alpha=grid[-1])
-                    try:
-                        h = AIPTW(df if weighted else df.drop(columns='wt'), exposure='A', outcome='Y', alpha=grid[-1],
-                                  weights='wt' if weighted else None)
-                        h.exposure_model('L', print_results=False)
-                        if missing:
-                            h.missing_model('A', print_results=False)
-                        h.outcome_model('A + L', print_results=False)
-                        h.fit()
-                        h.exposure_model('L + V', print_results=False)
-                        if missing:
-                            h.missing_model('A + L', print_results=False)
-                        h.outcome_model('A + L + V', print_results=False)
-                        h.fit()
-                        h.fit()
-                        if ytype == 'binary':
-                            got = {'risk_difference': (h.risk_difference, h.risk_difference_se) + tuple(h.risk_difference_ci),
-                                   'risk_ratio': (h.risk_ratio, h.risk_ratio_se) + tuple(h.risk_ratio_ci)}
-                        else:
-                            got = {'average_treatment_effect': (h.average_treatment_effect, h.average_treatment_effect_se)
-                                   + tuple(h.average_treatment_effect_ci)}
-                    except Exception as e:      # noqa: BLE001
-                        got = {}
-                        hc['error'] = repr(e)
-                    history_check(chk, 'AIPTW', got, {meas: rec_tuple(recs[-1]) for (meas, sc), recs in store.items()}, hc)
+                    cell_aiptw(chk, drv, new_spec(rng, int(rng.integers(150, 400)), ytype, missing), weighted)
 
 
 def aiptw_variance(chk, drv, m, ytype, missing, case):
@@ -437,141 +479,243 @@ def tmle_eic(pr, y):
             'odds_ratio': D1 / (m1 * (1 - m1)) - D0 / (m0 * (1 - m0))}
 
 
+def cell_tmle(chk, drv, spec):
+    from zepid.causal.doublyrobust import TMLE
+    ytype, missing = spec['ytype'], spec['missing']
+    df = causal_frame(spec).drop(columns='wt')
+    store = {}
+    case = {'estimator': 'TMLE', 'ytype': ytype, 'missing_model': missing, 'n': len(df),
+            'data_hash': hash(df.to_csv()), 'replay': rp('tmle', spec=spec)}
+    last = None
+    for alpha in GRID:
+        m = TMLE(df, exposure='A', outcome='Y', alpha=alpha)
+        m.exposure_model('L + V', print_results=False)
+        if missing:
+            m.missing_model('A + L', print_results=False)
+        m.outcome_model('A + L + V', print_results=False)
+        m.fit()
+        last = m
+        if ytype == 'binary':
+            new = [('risk_difference', 'lin', m.risk_difference, m.risk_difference_se, m.risk_difference_ci),
+                   ('risk_ratio', 'log', m.risk_ratio, m.risk_ratio_se, m.risk_ratio_ci),
+                   ('odds_ratio', 'log', m.odds_ratio, m.odds_ratio_se, m.odds_ratio_ci)]
+        else:
+            new = [('average_treatment_effect', 'lin', m.average_treatment_effect,
+                    m.average_treatment_effect_se, m.average_treatment_effect_ci)]
+        for meas, scale, est, se, ci in new:
+            store.setdefault((meas, scale), []).append(rec_of(alpha, est, se, ci))
+            # K: the model of TMLE.fit's interval (1.96 at alpha == 0.05) reproduces the reported limits
+            k_ci(chk, drv, 'TMLE.' + meas, scale, float(est), 1.96 if alpha == 0.05 else z_of(alpha),
+                 float(se), float(ci[0]), float(ci[1]), dict(case, alpha=alpha))
+    chk.count('tmle:%s/%s' % (ytype, 'miss' if missing else 'full'))
+    for (meas, scale), recs in sorted(store.items()):
+        judge(chk, 'TMLE:' + meas, scale, recs, case, tmle=True)
+    hc = dict(case, history='exposure L / outcome A+L fitted first, then respecified and fitted again',
+              alpha=GRID[-1])
+    try:
+        h = TMLE(df, exposure='A', outcome='Y', alpha=GRID[-1])
+        h.exposure_model('L', print_results=False)
+        if missing:
+            h.missing_model('A', print_results=False)
+        h.outcome_model('A + L', print_results=False)
+        h.fit()
+        h.exposure_model('L + V', print_results=False)
+        if missing:
+            h.missing_model('A + L', print_results=False)
+        h.outcome_model('A + L + V', print_results=False)
+        h.fit()
+        h.fit()
+        if ytype == 'binary':
+            got = {'risk_difference': (h.risk_difference, h.risk_difference_se) + tuple(h.risk_difference_ci),
+                   'risk_ratio': (h.risk_ratio, h.risk_ratio_se) + tuple(h.risk_ratio_ci),
+                   'odds_ratio': (h.odds_ratio, h.odds_ratio_se) + tuple(h.odds_ratio_ci)}
+        else:
+            got = {'average_treatment_effect': (h.average_treatment_effect, h.average_treatment_effect_se)
+                   + tuple(h.average_treatment_effect_ci)}
+    except Exception as e:      # noqa: BLE001
+        got = {}
+        hc['error'] = repr(e)
+    history_check(chk, 'TMLE', got, {meas: rec_tuple(recs[-1]) for (meas, sc), recs in store.items()}, hc)
+    pr = getattr(last, '_verif_probe_', None)
+    if pr is None:
+        chk.count('tmle_probe_unavailable')
+        return
+    n = last.df.shape[0]
+    if ytype == 'binary':
+        ic = tmle_eic(pr, np.asarray(last.df['Y'], dtype=float))
+        for meas, se in (('risk_difference', last.risk_difference_se), ('risk_ratio', last.risk_ratio_se),
+                         ('odds_ratio', last.odds_ratio_se)):
+            want = float(np.var(ic[meas], ddof=1) / n)
+            chk.d(close(se ** 2, want, rtol=1e-9, atol=1e-18),
+                  'TMLE %s: se^2 = variance of the efficient influence curve / n' % meas,
+                  dict(case, clause='ic_se', measure=meas, got=se ** 2, documented=want),
+                  signature={'estimator': 'TMLE', 'measure': meas, 'missing_outcome': bool(missing),
+                             'clause': 'ic_se'})
+        yv = np.asarray(last.df['Y'], dtype=float)
+        res = np.where(np.isnan(yv), 0.0, yv - pr['Qstar'])
+        k_icrr(chk, drv, 'TMLE.risk_ratio', 'doc', float(pr['Qstar1'].mean()), float(pr['Qstar0'].mean()),
+               pr['H1W'] * res, -pr['H0W'] * res, pr['Qstar1'], pr['Qstar0'], n,
+               float(last.risk_ratio_se) ** 2, case)
+        if drv is not None:
+            rep_, _ = drv.ask('icse', ic=enc_opt(ic['risk_difference']), n=n)
+            chk.k(rep_['status'] == 'ok' and close(unfx(rep_['se']), last.risk_difference_se, rtol=1e-9),
+                  'TMLE risk difference: model icSe vs implementation', {'case': case, 'model': rep_})
+    else:
+        # continuous outcome: the influence curve of the bounded problem scaled back by (max - min)
+        yo = np.asarray(df['Y'], dtype=float)
+        span = float(np.nanmax(yo) - np.nanmin(yo))
+        icb = tmle_eic(pr, np.asarray(pr['y'], dtype=float))['risk_difference']
+        want = float(span ** 2 * np.var(icb, ddof=1) / n)
+        chk.d(close(last.average_treatment_effect_se ** 2, want, rtol=1e-9, atol=1e-18),
+              'TMLE average treatment effect: se^2 = variance of the efficient influence curve (outcome '
+              'scale) / n', dict(case, clause='ic_se', got=float(last.average_treatment_effect_se) ** 2,
+                                 documented=want),
+              signature={'estimator': 'TMLE', 'measure': 'average_treatment_effect',
+                         'missing_outcome': bool(missing), 'clause': 'ic_se'})
+
+
 def stream_tmle(chk, drv, rng, tier):
     from zepid.causal.doublyrobust import TMLE
     for rep in range(1 if tier == 'quick' else 5):
         for ytype in ('binary', 'continuous'):
             for missing in (False, True):
-                df = gen_causal(rng, int(rng.integers(150, 400)), ytype, missing).drop(columns='wt')
-                store = {}
-                case = {'estimator': 'TMLE', 'ytype': ytype, 'missing_model': missing, 'n': len(df),
-                        'data_hash': hash(df.to_csv())}
-                last = None
-                for alpha in GRID:
-                    m = TMLE(df, exposure='A', outcome='Y', alpha=alpha)
-                    m.exposure_model('L + V', print_results=False)
-                    if missing:
-                        m.missing_model('A + L', print_results=False)
-                    m.outcome_model('A + L + V', print_results=False)
-                    m.fit()
-                    last = m
-                    if ytype == 'binary':
-                        new = [('risk_difference', 'lin', m.risk_difference, m.risk_difference_se, m.risk_difference_ci),
-                               ('risk_ratio', 'log', m.risk_ratio, m.risk_ratio_se, m.risk_ratio_ci),
-                               ('odds_ratio', 'log', m.odds_ratio, m.odds_ratio_se, m.odds_ratio_ci)]
-                    else:
-                        new = [('average_treatment_effect', 'lin', m.average_treatment_effect,
-                                m.average_treatment_effect_se, m.average_treatment_effect_ci)]
-                    for meas, scale, est, se, ci in new:
-                        store.setdefault((meas, scale), []).append(rec_of(alpha, est, se, ci))
-                        # K: the model of TMLE.fit's interval (1.96 at alpha == 0.05) reproduces the reported limits
-                        k_ci(chk, drv, 'TMLE.' + meas, scale, float(est), 1.96 if alpha == 0.05 else z_of(alpha),
-                             float(se), float(ci[0]), float(ci[1]), dict(case, alpha=alpha))
-                chk.count('tmle:%s/%s' % (ytype, 'miss' if missing else 'full'))
-                for (meas, scale), recs in sorted(store.items()):
-                    judge(chk, 'TMLE:' + meas, scale, recs, case, tmle=True)
-                hc = dict(case, history='exposure L / outcome A+L fitted first, then respecified and fitted again',
-                          alpha=GRID[-1])
-                try:
-                    h = TMLE(df, exposure='A', outcome='Y', alpha=GRID[-1])
-                    h.exposure_model('L', print_results=False)
-                    if missing:
-                        h.missing_model('A', print_results=False)
-                    h.outcome_model('A + L', print_results=False)
-                    h.fit()
-                    h.exposure_model('L + V', print_results=False)
-                    if missing:
-                        h.missing_model('A + L', print_results=False)
-                    h.outcome_model('A + L + V', print_results=False)
-                    h.fit()
-                    h.fit()
-                    if ytype == 'binary':
-                        got = {'risk_difference': (h.risk_difference, h.risk_difference_se) + tuple(h.risk_difference_ci),
-                               'risk_ratio': (h.risk_ratio, h.risk_ratio_se) + tuple(h.risk_ratio_ci),
-                               'odds_ratio': (h.odds_ratio, h.odds_ratio_se) + tuple(h.odds_ratio_ci)}
-                    else:
-                        got = {'average_treatment_effect': (h.average_treatment_effect, h.average_treatment_effect_se)
-                               + tuple(h.average_treatment_effect_ci)}
-                except Exception as e:      # noqa: BLE001
-                    got = {}
-                    hc['error'] = repr(e)
-                history_check(chk, 'TMLE', got, {meas: rec_tuple(recs[-1]) for (meas, sc), recs in store.items()}, hc)
-                pr = getattr(last, '_verif_probe_', None)
-                if pr is None:
-                    chk.count('tmle_probe_unavailable')
-                    continue
-                n = last.df.shape[0]
-                if ytype == 'binary':
-                    ic = tmle_eic(pr, np.asarray(last.df['Y'], dtype=float))
-                    for meas, se in (('risk_difference', last.risk_difference_se), ('risk_ratio', last.risk_ratio_se),
-                                     ('odds_ratio', last.odds_ratio_se)):
-                        want = float(np.var(ic[meas], ddof=1) / n)
-                        chk.d(close(se ** 2, want, rtol=1e-9, atol=1e-18),
-                              'TMLE %s: se^2 = variance of the efficient influence curve / n' % meas,
-                              dict(case, clause='ic_se', measure=meas, got=se ** 2, documented=want),
-                              signature={'estimator': 'TMLE', 'measure': meas, 'missing_outcome': bool(missing),
-                                         'clause': 'ic_se'})
-                    yv = np.asarray(last.df['Y'], dtype=float)
-                    res = np.where(np.isnan(yv), 0.0, yv - pr['Qstar'])
-                    k_icrr(chk, drv, 'TMLE.risk_ratio', 'doc', float(pr['Qstar1'].mean()), float(pr['Qstar0'].mean()),
-                           pr['H1W'] * res, -pr['H0W'] * res, pr['Qstar1'], pr['Qstar0'], n,
-                           float(last.risk_ratio_se) ** 2, case)
-                    if drv is not None:
-                        rep_, _ = drv.ask('icse', ic=enc_opt(ic['risk_difference']), n=n)
-                        chk.k(rep_['status'] == 'ok' and close(unfx(rep_['se']), last.risk_difference_se, rtol=1e-9),
-                              'TMLE risk difference: model icSe vs implementation', {'case': case, 'model': rep_})
+                cell_tmle(chk, drv, new_spec(rng, int(rng.integers(150, 400)), ytype, missing))
+
+
+def stmle_reference(df, ytype, p, model_g='L + V', model_q='A + L + V', cb=0.0005):
+    """the documented StochasticTMLE quantities recomputed by the harness from its own nuisance fits:
+    conditional variance mean((H (Y - Q))^2) on the outcome's own scale for any plan, and for a deterministic plan
+    (p = 0 or 1: no Monte-Carlo error) the targeted estimate and the marginal variance
+    mean((H (Y - Q) + Q*_plan - psi)^2)"""
+    import statsmodels.api as sm
+    import statsmodels.formula.api as smf
+    A = df['A'].values.astype(float)
+    Y = df['Y'].values.astype(float)
+    n = len(df)
+    g = smf.glm('A ~ ' + model_g, df, family=sm.families.Binomial()).fit().predict(df).values
+    den = np.where(A == 1, g, 1 - g)
+    d2 = df.copy()
+    if ytype == 'continuous':
+        lo, hi = Y.min(), Y.max()
+        d2['Y'] = np.clip((Y - lo) / (hi - lo), cb, 1 - cb)
+        fam = sm.families.Gaussian()
+
+        def unb(x):
+            return x * (hi - lo) + lo
+    else:
+        fam = sm.families.Binomial()
+
+        def unb(x):
+            return x
+    om = smf.glm('Y ~ ' + model_q, d2, family=fam).fit()
+    Q = om.predict(d2).values
+    if ytype == 'continuous':
+        Q = np.clip(Q, cb, 1 - cb)
+    yb = d2['Y'].values.astype(float)
+    haw = np.where(A == 1, p, 1 - p) / den
+    out = {'conditional_se': float(np.sqrt(np.mean((haw * (unb(yb) - unb(Q))) ** 2) / n))}
+    if p in (0.0, 1.0):
+        eps = float(np.asarray(sm.GLM(yb, np.repeat(1, n), offset=np.log(Q / (1 - Q)), freq_weights=haw,
+                                      family=sm.families.Binomial()).fit().params)[0])
+        d3 = d2.copy()
+        d3['A'] = int(p)
+        ystar = om.predict(d3).values
+        if np.any(ystar <= 0) or np.any(ystar >= 1):
+            # a prediction under the plan left the unit interval (continuous outcome): logit undefined; zEpid then
+            # drops those rows from the mean and reports marginal_se = NaN (reported to the lead, not C06's subject)
+            out['plan_prediction_out_of_range'] = True
+            return out
+        qstar = 1 / (1 + np.exp(-(np.log(ystar / (1 - ystar)) + eps)))
+        psi = float(unb(np.mean(qstar)))
+        out['marginal_outcome'] = psi
+        out['marginal_se'] = float(np.sqrt(np.mean((haw * (unb(yb) - unb(Q)) + unb(qstar) - psi) ** 2) / n))
+    return out
+
+
+def cell_stmle(chk, drv, spec, p, rep, tier):
+    from zepid.causal.doublyrobust import StochasticTMLE
+    ytype = spec['ytype']
+    df = causal_frame(spec).drop(columns='wt')
+    store = {}
+    case = {'estimator': 'StochasticTMLE', 'ytype': ytype, 'p': p, 'n': len(df), 'data_hash': hash(df.to_csv()),
+            'replay': rp('stmle', spec=spec, p=p, rep=rep, tier=tier)}
+    for alpha in (GRID_SMALL if tier == 'quick' else GRID[::2] + [0.05]):
+        m = StochasticTMLE(df, exposure='A', outcome='Y', alpha=alpha)
+        m.exposure_model('L + V')
+        m.outcome_model('A + L + V')
+        m.fit(p=p, samples=8, seed=20240 + rep)
+        for meas, se, ci in (('marginal', m.marginal_se, m.marginal_ci),
+                             ('conditional', m.conditional_se, m.conditional_ci)):
+            store.setdefault(meas, []).append(rec_of(alpha, m.marginal_outcome, se, ci))
+            k_ci(chk, drv, 'StochasticTMLE.' + meas, 'lin', float(m.marginal_outcome), z_of(alpha), float(se),
+                 float(ci[0]), float(ci[1]), dict(case, alpha=alpha))
+    chk.count('stmle:' + ytype)
+    for meas, recs in sorted(store.items()):
+        judge(chk, 'StochasticTMLE:' + meas, 'lin', recs, case)
+    # secondary quantities against their documented definitions (harness's own nuisance fits): conditional se
+    # for a stochastic plan, everything for the deterministic plans p = 1 and p = 0
+    for q in (p, 1.0, 0.0):
+        dc = dict(case, p=q, clause='documented_variance')
+        chk.case(dc, ('stmle-def', ytype, q, hash(df.to_csv())))
+        chk.count('stmle_definition:%s/p=%s' % (ytype, q))
+        try:
+            mm = StochasticTMLE(df, exposure='A', outcome='Y', alpha=0.2)
+            mm.exposure_model('L + V')
+            mm.outcome_model('A + L + V')
+            mm.fit(p=q, samples=3, seed=0)
+            ref = stmle_reference(df, ytype, q)
+            if ref.pop('plan_prediction_out_of_range', False):
+                chk.count('stmle_plan_prediction_out_of_range_not_judged')
+            got = {k: float(getattr(mm, k)) for k in ref}
+            dc.update(got=got, documented=ref)
+            # 1e-7: two independent runs of the same IRLS fits (agreement measured: 1e-15)
+            for k in sorted(ref):
+                chk.d(close(got[k], ref[k], rtol=1e-7, atol=1e-12),
+                      'StochasticTMLE %s = its documented definition on the outcome scale' % k, dc)
+            zz = z_of(0.2)
+            chk.d(close(mm.conditional_ci[0], mm.marginal_outcome - zz * ref['conditional_se'], rtol=1e-7,
+                        atol=1e-10) and
+                  close(mm.conditional_ci[1], mm.marginal_outcome + zz * ref['conditional_se'], rtol=1e-7,
+                        atol=1e-10),
+                  'StochasticTMLE conditional_ci = estimate -/+ z * documented conditional se', dc)
+        except Exception as e:      # noqa: BLE001
+            chk.d(False, 'StochasticTMLE runs on a valid plan (p=%s)' % q, dict(dc, error=repr(e)))
+    # history: several plans fitted on ONE object; each fit must report what a fresh object reports for
+    # that plan (estimate, both standard errors, both intervals)
+    plans = [q for q in (0.9, 0.1, p) ]
+    obj = StochasticTMLE(df, exposure='A', outcome='Y', alpha=0.1)
+    obj.exposure_model('L + V')
+    obj.outcome_model('A + L + V')
+    for i, q in enumerate(plans):
+        hc = dict(case, history='fit #%d on one object, plans so far %s' % (i + 1, plans[:i + 1]), p=q, alpha=0.1)
+        chk.case(hc, ('stmle-history', ytype, i, hash(df.to_csv())))
+        chk.count('history:stmle')
+        try:
+            obj.fit(p=q, samples=8, seed=777 + rep)
+            fr = StochasticTMLE(df, exposure='A', outcome='Y', alpha=0.1)
+            fr.exposure_model('L + V')
+            fr.outcome_model('A + L + V')
+            fr.fit(p=q, samples=8, seed=777 + rep)
+            got = [obj.marginal_outcome, obj.marginal_se, obj.conditional_se] + list(obj.marginal_ci) + \
+                list(obj.conditional_ci)
+            want = [fr.marginal_outcome, fr.marginal_se, fr.conditional_se] + list(fr.marginal_ci) + \
+                list(fr.conditional_ci)
+            ok = all(close(float(g), float(w), rtol=1e-10, atol=1e-13) for g, w in zip(got, want))
+            hc.update(refit=[float(x) for x in got], fresh=[float(x) for x in want])
+        except Exception as e:      # noqa: BLE001
+            ok = False
+            hc['error'] = repr(e)
+        chk.d(ok, 'StochasticTMLE: estimate, se and limits of a later fit on the same object = those of a fresh '
+              'object for that plan', hc)
+        judge(chk, 'StochasticTMLE:marginal(refit)', 'lin',
+              [rec_of(0.1, obj.marginal_outcome, obj.marginal_se, obj.marginal_ci)], hc, fixed_alpha=True)
 
 
 def stream_stmle(chk, drv, rng, tier):
     from zepid.causal.doublyrobust import StochasticTMLE
     for rep in range(1 if tier == 'quick' else 3):
         for ytype in ('binary', 'continuous'):
-            df = gen_causal(rng, int(rng.integers(150, 300)), ytype, False).drop(columns='wt')
-            p = float(rng.choice([0.3, 0.5, 0.8]))
-            store = {}
-            case = {'estimator': 'StochasticTMLE', 'ytype': ytype, 'p': p, 'n': len(df), 'data_hash': hash(df.to_csv())}
-            for alpha in (GRID_SMALL if tier == 'quick' else GRID[::2] + [0.05]):
-                m = StochasticTMLE(df, exposure='A', outcome='Y', alpha=alpha)
-                m.exposure_model('L + V')
-                m.outcome_model('A + L + V')
-                m.fit(p=p, samples=8, seed=20240 + rep)
-                for meas, se, ci in (('marginal', m.marginal_se, m.marginal_ci),
-                                     ('conditional', m.conditional_se, m.conditional_ci)):
-                    store.setdefault(meas, []).append(rec_of(alpha, m.marginal_outcome, se, ci))
-                    k_ci(chk, drv, 'StochasticTMLE.' + meas, 'lin', float(m.marginal_outcome), z_of(alpha), float(se),
-                         float(ci[0]), float(ci[1]), dict(case, alpha=alpha))
-            chk.count('stmle:' + ytype)
-            for meas, recs in sorted(store.items()):
-                judge(chk, 'StochasticTMLE:' + meas, 'lin', recs, case)
-            # history: several plans fitted on ONE object; each fit must report what a fresh object reports for
-            # that plan (estimate, both standard errors, both intervals)
-            plans = [q for q in (0.9, 0.1, p) ]
-            obj = StochasticTMLE(df, exposure='A', outcome='Y', alpha=0.1)
-            obj.exposure_model('L + V')
-            obj.outcome_model('A + L + V')
-            for i, q in enumerate(plans):
-                hc = dict(case, history='fit #%d on one object, plans so far %s' % (i + 1, plans[:i + 1]), p=q, alpha=0.1)
-                chk.case(hc, ('stmle-history', ytype, i, hash(df.to_csv())))
-                chk.count('history:stmle')
-                try:
-                    obj.fit(p=q, samples=8, seed=777 + rep)
-                    fr = StochasticTMLE(df, exposure='A', outcome='Y', alpha=0.1)
-                    fr.exposure_model('L + V')
-                    fr.outcome_model('A + L + V')
-                    fr.fit(p=q, samples=8, seed=777 + rep)
-                    got = [obj.marginal_outcome, obj.marginal_se, obj.conditional_se] + list(obj.marginal_ci) + \
-                        list(obj.conditional_ci)
-                    want = [fr.marginal_outcome, fr.marginal_se, fr.conditional_se] + list(fr.marginal_ci) + \
-                        list(fr.conditional_ci)
-                    ok = all(close(float(g), float(w), rtol=1e-10, atol=1e-13) for g, w in zip(got, want))
-                    hc.update(refit=[float(x) for x in got], fresh=[float(x) for x in want])
-                except Exception as e:      # noqa: BLE001
-                    ok = False
-                    hc['error'] = repr(e)
-                chk.d(ok, 'StochasticTMLE: estimate, se and limits of a later fit on the same object = those of a fresh '
-                      'object for that plan', hc)
-                judge(chk, 'StochasticTMLE:marginal(refit)', 'lin',
-                      [rec_of(0.1, obj.marginal_outcome, obj.marginal_se, obj.marginal_ci)], hc, fixed_alpha=True)
+            cell_stmle(chk, drv, new_spec(rng, int(rng.integers(150, 300)), ytype, False), float(rng.choice([0.3, 0.5, 0.8])), rep, tier)
 
 
 def sort_median(v):
@@ -609,19 +753,12 @@ def crossfit_measures(m, cname, ytype):
     return [('ace', 'lin', m.ace, m.ace_se, m.ace_ci, m.ace_vector, m.ace_var_vector, False)]
 
 
-def stream_crossfit(chk, drv, rng, tier):
-    """all four cross-fit classes, BOTH pooling methods: every reported measure is re-pooled from its *_vector /
-    *_var_vector attributes with the method that was asked for; then one object is fitted a second time with the
-    other method and must report what a fresh object reports"""
+def cell_crossfit(chk, drv, spec, cname, ns, methods):
     from sklearn.linear_model import LogisticRegression, LinearRegression
     import zepid.causal.doublyrobust as dr
-    classes = [('SingleCrossfitAIPTW', 2), ('DoubleCrossfitAIPTW', 3), ('SingleCrossfitTMLE', 2),
-               ('DoubleCrossfitTMLE', 3)]
-    if tier == 'quick':
-        plan = [('binary', [('median', GRID_TINY), ('mean', [0.05, 0.3])])]
-    else:
-        plan = [('binary', [('median', GRID_SMALL), ('mean', GRID_SMALL)]),
-                ('continuous', [('median', GRID_SMALL), ('mean', [0.05, 0.3])])]
+    ytype = spec['ytype']
+    methods = [(m, list(g)) for m, g in methods]
+    df = causal_frame(spec).drop(columns='wt')
     nparts = {'median': 3, 'mean': 4}
 
     def make(cname, alpha, ytype, df):
@@ -630,82 +767,103 @@ def stream_crossfit(chk, drv, rng, tier):
         m.outcome_model('A + L + V', LogisticRegression(penalty=None, solver='lbfgs') if ytype == 'binary'
                         else LinearRegression())
         return m
+    fresh = {}
+    keep = None
+    for method, grid in methods:
+        store = {}
+        case = {'estimator': cname, 'ytype': ytype, 'method': method, 'n': len(df),
+                'data_hash': hash(df.to_csv()),
+                'replay': rp('crossfit', spec=spec, cname=cname, ns=ns, methods=methods)}
+        for alpha in grid:
+            m = make(cname, alpha, ytype, df)
+            m.fit(n_splits=ns, n_partitions=nparts[method], method=method, random_state=777)
+            if method == 'mean' and alpha == 0.05:
+                keep = m
+            for meas, scale, est, se, ci, vec, vvec, logscale in crossfit_measures(m, cname, ytype):
+                store.setdefault((meas, scale), []).append(rec_of(alpha, est, se, ci))
+                fresh[(method, alpha, meas)] = (float(est), float(se), float(ci[0]), float(ci[1]))
+                k_ci(chk, drv, cname + '.' + meas, scale, float(est), z_of(alpha), float(se), float(ci[0]),
+                     float(ci[1]), dict(case, alpha=alpha))
+                pts = [math.log(float(x)) for x in vec] if logscale else [float(x) for x in vec]
+                p, v = pooled(pts, vvec, method)
+                c = dict(case, alpha=alpha, measure=meas, vector=[float(x) for x in vec],
+                         var_vector=[float(x) for x in vvec])
+                chk.d(len(vec) == nparts[method] and len(vvec) == nparts[method] and
+                      close(math.log(float(est)) if logscale else float(est), p, rtol=1e-11, atol=1e-14) and
+                      close(float(se) ** 2, v, rtol=1e-10, atol=1e-18),
+                      '%s %s: pooled estimate / variance = %s of (var + (est - pooled)^2) over the partitions'
+                      % (cname, meas, method), c)
+                k_pool(chk, drv, cname + '.' + meas, method, pts, [float(x) for x in vvec],
+                       math.log(float(est)) if logscale else float(est), float(se) ** 2, c)
+        chk.count('crossfit:%s/%s/%s' % (cname, ytype, method))
+        for (meas, scale), recs in sorted(store.items()):
+            judge(chk, cname + ':' + meas, scale, recs, case)
+    # history: the object fitted with method='mean' is fitted again with method='median'
+    if keep is not None:
+        hc = {'estimator': cname, 'ytype': ytype, 'history': "fit(method='mean') then fit(method='median')",
+              'n': len(df), 'replay': rp('crossfit', spec=spec, cname=cname, ns=ns, methods=methods)}
+        try:
+            keep.fit(n_splits=ns, n_partitions=nparts['median'], method='median', random_state=777)
+            got = {meas: (float(est), float(se), float(ci[0]), float(ci[1]))
+                   for meas, scale, est, se, ci, vec, vvec, logscale in crossfit_measures(keep, cname, ytype)}
+            err = None
+        except Exception as e:      # noqa: BLE001
+            got, err = {}, repr(e)
+        chk.case(hc, ('crossfit-history', cname, ytype))
+        chk.count('history:crossfit')
+        for meas in sorted(k[2] for k in fresh if k[0] == 'median' and k[1] == 0.05):
+            want = fresh[('median', 0.05, meas)]
+            chk.d(meas in got and all(close(g, w, rtol=1e-10, atol=1e-13) for g, w in zip(got[meas], want)),
+                  '%s %s: a second fit on the same object reports what a fresh object reports' % (cname, meas),
+                  dict(hc, measure=meas, refit=got.get(meas), fresh=want, error=err))
+
+
+def stream_crossfit(chk, drv, rng, tier):
+    """all four cross-fit classes, BOTH pooling methods: every reported measure is re-pooled from its *_vector /
+    *_var_vector attributes with the method that was asked for; then one object is fitted a second time with the
+    other method and must report what a fresh object reports"""
+    classes = [('SingleCrossfitAIPTW', 2), ('DoubleCrossfitAIPTW', 3), ('SingleCrossfitTMLE', 2),
+               ('DoubleCrossfitTMLE', 3)]
+    if tier == 'quick':
+        plan = [('binary', [('median', GRID_TINY), ('mean', [0.05, 0.3])])]
+    else:
+        plan = [('binary', [('median', GRID_SMALL), ('mean', GRID_SMALL)]),
+                ('continuous', [('median', GRID_SMALL), ('mean', [0.05, 0.3])])]
     for ytype, methods in plan:
-        df = gen_causal(rng, int(rng.integers(180, 260)), ytype, False).drop(columns='wt')
+        spec = new_spec(rng, int(rng.integers(180, 260)), ytype, False)
         for cname, ns in classes:
-            fresh = {}
-            keep = None
-            for method, grid in methods:
-                store = {}
-                case = {'estimator': cname, 'ytype': ytype, 'method': method, 'n': len(df),
-                        'data_hash': hash(df.to_csv())}
-                for alpha in grid:
-                    m = make(cname, alpha, ytype, df)
-                    m.fit(n_splits=ns, n_partitions=nparts[method], method=method, random_state=777)
-                    if method == 'mean' and alpha == 0.05:
-                        keep = m
-                    for meas, scale, est, se, ci, vec, vvec, logscale in crossfit_measures(m, cname, ytype):
-                        store.setdefault((meas, scale), []).append(rec_of(alpha, est, se, ci))
-                        fresh[(method, alpha, meas)] = (float(est), float(se), float(ci[0]), float(ci[1]))
-                        k_ci(chk, drv, cname + '.' + meas, scale, float(est), z_of(alpha), float(se), float(ci[0]),
-                             float(ci[1]), dict(case, alpha=alpha))
-                        pts = [math.log(float(x)) for x in vec] if logscale else [float(x) for x in vec]
-                        p, v = pooled(pts, vvec, method)
-                        c = dict(case, alpha=alpha, measure=meas, vector=[float(x) for x in vec],
-                                 var_vector=[float(x) for x in vvec])
-                        chk.d(len(vec) == nparts[method] and len(vvec) == nparts[method] and
-                              close(math.log(float(est)) if logscale else float(est), p, rtol=1e-11, atol=1e-14) and
-                              close(float(se) ** 2, v, rtol=1e-10, atol=1e-18),
-                              '%s %s: pooled estimate / variance = %s of (var + (est - pooled)^2) over the partitions'
-                              % (cname, meas, method), c)
-                        k_pool(chk, drv, cname + '.' + meas, method, pts, [float(x) for x in vvec],
-                               math.log(float(est)) if logscale else float(est), float(se) ** 2, c)
-                chk.count('crossfit:%s/%s/%s' % (cname, ytype, method))
-                for (meas, scale), recs in sorted(store.items()):
-                    judge(chk, cname + ':' + meas, scale, recs, case)
-            # history: the object fitted with method='mean' is fitted again with method='median'
-            if keep is not None:
-                hc = {'estimator': cname, 'ytype': ytype, 'history': "fit(method='mean') then fit(method='median')",
-                      'n': len(df)}
-                try:
-                    keep.fit(n_splits=ns, n_partitions=nparts['median'], method='median', random_state=777)
-                    got = {meas: (float(est), float(se), float(ci[0]), float(ci[1]))
-                           for meas, scale, est, se, ci, vec, vvec, logscale in crossfit_measures(keep, cname, ytype)}
-                    err = None
-                except Exception as e:      # noqa: BLE001
-                    got, err = {}, repr(e)
-                chk.case(hc, ('crossfit-history', cname, ytype))
-                chk.count('history:crossfit')
-                for meas in sorted(k[2] for k in fresh if k[0] == 'median' and k[1] == 0.05):
-                    want = fresh[('median', 0.05, meas)]
-                    chk.d(meas in got and all(close(g, w, rtol=1e-10, atol=1e-13) for g, w in zip(got[meas], want)),
-                          '%s %s: a second fit on the same object reports what a fresh object reports' % (cname, meas),
-                          dict(hc, measure=meas, refit=got.get(meas), fresh=want, error=err))
+            cell_crossfit(chk, drv, spec, cname, ns, methods)
+
+
+def cell_joint(chk, drv, method, pts, vs, as_list, same):
+    from zepid.causal.doublyrobust.crossfit import calculate_joint_estimate
+    pts, vs = np.array(pts, dtype=float), np.array(vs, dtype=float)
+    kind = 0 if same else 1
+    arg_p, arg_v = (list(pts), list(vs)) if as_list else (pts.copy(), vs.copy())
+    est, var = calculate_joint_estimate(arg_p, arg_v, method=method)
+    p, v = pooled(pts, vs, method)
+    case = {'stream': 'calculate_joint_estimate', 'method': method, 'points': pts.tolist(), 'vars': vs.tolist(),
+            'replay': rp('joint', method=method, pts=pts.tolist(), vs=vs.tolist(), as_list=as_list, same=same)}
+    chk.case(case, ('joint', method, tuple(pts.tolist()), tuple(vs.tolist())))
+    chk.d(close(est, p, rtol=1e-12, atol=1e-15) and close(var, v, rtol=1e-11, atol=1e-18),
+          'calculate_joint_estimate = %s of estimates, %s of var + (est - pooled)^2' % (method, method), case)
+    chk.d(var >= 0, 'pooled variance is non-negative', case)
+    if kind == 0:
+        chk.d(close(est, pts[0], rtol=1e-15, atol=0) and close(var, vs[0], rtol=1e-12, atol=0),
+              'all partitions agree => pooling returns that estimate and variance', case)
+    k_pool(chk, drv, 'calculate_joint_estimate', method, pts.tolist(), vs.tolist(), float(est), float(var), case)
 
 
 def stream_joint(chk, drv, rng, tier):
     from zepid.causal.doublyrobust.crossfit import calculate_joint_estimate
     for i in range(60 if tier == 'quick' else 600):
         k = int(rng.integers(1, 12))
-        method = 'median' if i % 2 else 'mean'
         pts = np.round(rng.normal(size=k), int(rng.integers(1, 6)))      # coarse rounding produces ties
         vs = np.round(rng.uniform(0.001, 0.5, size=k), 4)
-        kind = i % 5
-        if kind == 0:
+        if i % 5 == 0:
             pts[:] = pts[0]
             vs[:] = vs[0]
-        arg_p, arg_v = (list(pts), list(vs)) if i % 3 == 0 else (pts.copy(), vs.copy())
-        est, var = calculate_joint_estimate(arg_p, arg_v, method=method)
-        p, v = pooled(pts, vs, method)
-        case = {'stream': 'calculate_joint_estimate', 'method': method, 'points': pts.tolist(), 'vars': vs.tolist()}
-        chk.case(case, ('joint', method, tuple(pts.tolist()), tuple(vs.tolist())))
-        chk.d(close(est, p, rtol=1e-12, atol=1e-15) and close(var, v, rtol=1e-11, atol=1e-18),
-              'calculate_joint_estimate = %s of estimates, %s of var + (est - pooled)^2' % (method, method), case)
-        chk.d(var >= 0, 'pooled variance is non-negative', case)
-        if kind == 0:
-            chk.d(close(est, pts[0], rtol=1e-15, atol=0) and close(var, vs[0], rtol=1e-12, atol=0),
-                  'all partitions agree => pooling returns that estimate and variance', case)
-        k_pool(chk, drv, 'calculate_joint_estimate', method, pts.tolist(), vs.tolist(), float(est), float(var), case)
+        cell_joint(chk, drv, 'median' if i % 2 else 'mean', pts.tolist(), vs.tolist(), i % 3 == 0, i % 5 == 0)
     for bad in ((np.zeros(3), np.zeros(2), 'median'), (np.zeros(3), np.zeros(3), 'mode')):
         try:
             calculate_joint_estimate(bad[0], bad[1], method=bad[2])
@@ -720,63 +878,72 @@ def stream_joint(chk, drv, rng, tier):
             chk.k(rep['status'] == 'err', 'pool model rejects mismatched lengths', {'model': rep})
 
 
+def cell_ic(chk, drv, data_seed, i):
+    from zepid.causal.doublyrobust.crossfit import tmle_calculator
+    from zepid.causal.utils import aipw_calculator
+    rng = np.random.default_rng(data_seed)
+    n = int(rng.integers(60, 400))
+    ns = int(rng.integers(2, 4))
+    a = rng.integers(0, 2, n).astype(float)
+    y = rng.integers(0, 2, n).astype(float)
+    q1, q0 = rng.uniform(0.2, 0.8, n), rng.uniform(0.1, 0.7, n)
+    qa = np.where(a == 1, q1, q0)
+    g1 = rng.uniform(0.2, 0.8, n)
+    g0 = 1 - g1
+    sp = rng.integers(0, ns, n)
+    h1, h0 = a / g1, -(1 - a) / g0
+    case = {'stream': 'tmle_calculator', 'n': n, 'splits': ns, 'seed_index': i,
+            'replay': rp('ic', data_seed=data_seed, i=i)}
+    for meas in ('risk_difference', 'risk_ratio', 'odds_ratio'):
+        est, var = tmle_calculator(y, q1, q0, qa, h1, h0, h1 + h0, sp, measure=meas)
+        vs = []
+        for s in sorted(set(sp.tolist())):
+            m = sp == s
+            m1, m0, r = q1[m].mean(), q0[m].mean(), (y - qa)[m]
+            D1, D0 = h1[m] * r + q1[m] - m1, -h0[m] * r + q0[m] - m0
+            ic = {'risk_difference': D1 - D0, 'risk_ratio': D1 / m1 - D0 / m0,
+                  'odds_ratio': D1 / (m1 * (1 - m1)) - D0 / (m0 * (1 - m0))}[meas]
+            vs.append(np.var(ic, ddof=1))
+        want = float(np.mean(vs) / n)
+        chk.case(case, ('tmle_calculator', meas, i, n))
+        chk.d(close(var, want, rtol=1e-9, atol=1e-18),
+              'crossfit.tmle_calculator %s: variance = mean over splits of var(efficient influence curve) / n' % meas,
+              dict(case, measure=meas, got=float(var), documented=want),
+              signature={'estimator': 'crossfit.tmle_calculator', 'measure': meas, 'clause': 'ic_se'})
+    # aipw_calculator with splits (cross-fit AIPTW) and without
+    for splits in (None, sp):
+        est, var = aipw_calculator(y, a, q1, q0, g1, g0, difference=True, splits=splits)
+        y1 = np.where(a == 1, (y - q1 * (1 - g1)) / g1, q1)
+        y0 = np.where(a == 0, (y - q0 * (1 - g0)) / g0, q0)
+        d = y1 - y0
+        if splits is None:
+            want = float(np.var(d, ddof=1) / n)
+        else:
+            want = float(np.mean([np.var(d[sp == s] - d.mean(), ddof=1) for s in sorted(set(sp.tolist()))]) / n)
+        c = {'stream': 'aipw_calculator', 'n': n, 'splits': None if splits is None else ns, 'seed_index': i,
+             'replay': rp('ic', data_seed=data_seed, i=i)}
+        chk.case(c, ('aipw_calculator', splits is None, i, n))
+        chk.d(close(est, float(d.mean()), rtol=1e-11, atol=1e-14) and close(var, want, rtol=1e-9, atol=1e-18),
+              'aipw_calculator difference: variance = (mean over splits of) var(pseudo-outcome difference) / n', c,
+              signature={'estimator': 'aipw_calculator', 'measure': 'difference', 'clause': 'ic_se'})
+        if splits is None:
+            rr, lv = aipw_calculator(y, a, q1, q0, g1, g0, difference=False)
+            judge_rr_ic(chk, 'aipw_calculator', float(lv), a, y, q1, q0, y1, y0, g1, g0, n, c)
+            k_icrr(chk, drv, 'aipw_calculator', 'aipw', float(q1.mean()), float(q0.mean()), a * (y - qa) / g1,
+                   (1 - a) * (y - qa) / g0, q1, q0, n, float(lv), c)
+    # one split: the cross-fit TMLE risk-ratio code path on all rows (model mirrors the code: finding F15)
+    one = np.zeros(n, dtype=int)
+    est1, var1 = tmle_calculator(y, q1, q0, qa, h1, h0, h1 + h0, one, measure='risk_ratio')
+    k_icrr(chk, drv, 'crossfit.tmle_calculator', 'xfit', float(q1.mean()), float(q0.mean()), h1 * (y - qa),
+           -h0 * (y - qa), q1, q0, n, float(var1), case)
+
+
 def stream_calculators_ic(chk, drv, rng, tier):
     """tmle_calculator / aipw_calculator (the cross-fit variance code) directly on random nuisance vectors"""
     from zepid.causal.doublyrobust.crossfit import tmle_calculator
     from zepid.causal.utils import aipw_calculator
     for i in range(6 if tier == 'quick' else 60):
-        n = int(rng.integers(60, 400))
-        ns = int(rng.integers(2, 4))
-        a = rng.integers(0, 2, n).astype(float)
-        y = rng.integers(0, 2, n).astype(float)
-        q1, q0 = rng.uniform(0.2, 0.8, n), rng.uniform(0.1, 0.7, n)
-        qa = np.where(a == 1, q1, q0)
-        g1 = rng.uniform(0.2, 0.8, n)
-        g0 = 1 - g1
-        sp = rng.integers(0, ns, n)
-        h1, h0 = a / g1, -(1 - a) / g0
-        case = {'stream': 'tmle_calculator', 'n': n, 'splits': ns, 'seed_index': i}
-        for meas in ('risk_difference', 'risk_ratio', 'odds_ratio'):
-            est, var = tmle_calculator(y, q1, q0, qa, h1, h0, h1 + h0, sp, measure=meas)
-            vs = []
-            for s in sorted(set(sp.tolist())):
-                m = sp == s
-                m1, m0, r = q1[m].mean(), q0[m].mean(), (y - qa)[m]
-                D1, D0 = h1[m] * r + q1[m] - m1, -h0[m] * r + q0[m] - m0
-                ic = {'risk_difference': D1 - D0, 'risk_ratio': D1 / m1 - D0 / m0,
-                      'odds_ratio': D1 / (m1 * (1 - m1)) - D0 / (m0 * (1 - m0))}[meas]
-                vs.append(np.var(ic, ddof=1))
-            want = float(np.mean(vs) / n)
-            chk.case(case, ('tmle_calculator', meas, i, n))
-            chk.d(close(var, want, rtol=1e-9, atol=1e-18),
-                  'crossfit.tmle_calculator %s: variance = mean over splits of var(efficient influence curve) / n' % meas,
-                  dict(case, measure=meas, got=float(var), documented=want),
-                  signature={'estimator': 'crossfit.tmle_calculator', 'measure': meas, 'clause': 'ic_se'})
-        # aipw_calculator with splits (cross-fit AIPTW) and without
-        for splits in (None, sp):
-            est, var = aipw_calculator(y, a, q1, q0, g1, g0, difference=True, splits=splits)
-            y1 = np.where(a == 1, (y - q1 * (1 - g1)) / g1, q1)
-            y0 = np.where(a == 0, (y - q0 * (1 - g0)) / g0, q0)
-            d = y1 - y0
-            if splits is None:
-                want = float(np.var(d, ddof=1) / n)
-            else:
-                want = float(np.mean([np.var(d[sp == s] - d.mean(), ddof=1) for s in sorted(set(sp.tolist()))]) / n)
-            c = {'stream': 'aipw_calculator', 'n': n, 'splits': None if splits is None else ns, 'seed_index': i}
-            chk.case(c, ('aipw_calculator', splits is None, i, n))
-            chk.d(close(est, float(d.mean()), rtol=1e-11, atol=1e-14) and close(var, want, rtol=1e-9, atol=1e-18),
-                  'aipw_calculator difference: variance = (mean over splits of) var(pseudo-outcome difference) / n', c,
-                  signature={'estimator': 'aipw_calculator', 'measure': 'difference', 'clause': 'ic_se'})
-            if splits is None:
-                rr, lv = aipw_calculator(y, a, q1, q0, g1, g0, difference=False)
-                judge_rr_ic(chk, 'aipw_calculator', float(lv), a, y, q1, q0, y1, y0, g1, g0, n, c)
-                k_icrr(chk, drv, 'aipw_calculator', 'aipw', float(q1.mean()), float(q0.mean()), a * (y - qa) / g1,
-                       (1 - a) * (y - qa) / g0, q1, q0, n, float(lv), c)
-        # one split: the cross-fit TMLE risk-ratio code path on all rows (model mirrors the code: finding F15)
-        one = np.zeros(n, dtype=int)
-        est1, var1 = tmle_calculator(y, q1, q0, qa, h1, h0, h1 + h0, one, measure='risk_ratio')
-        k_icrr(chk, drv, 'crossfit.tmle_calculator', 'xfit', float(q1.mean()), float(q0.mean()), h1 * (y - qa),
-               -h0 * (y - qa), q1, q0, n, float(var1), case)
+        cell_ic(chk, drv, int(rng.integers(0, 2 ** 31)), i)
 
 
 def msm_closed(a, y, w):
@@ -789,6 +956,93 @@ def msm_closed(a, y, w):
     return out
 
 
+def cell_iptw(chk, drv, spec, weighted):
+    from zepid.causal.ipw import IPTW
+    ytype, missing = spec['ytype'], spec['missing']
+    z95 = z_of(0.05)
+    df = causal_frame(spec)
+    if not weighted:
+        df = df.drop(columns='wt')
+    m = IPTW(df, treatment='A', outcome='Y', weights='wt' if weighted else None)
+    m.treatment_model('L + V', print_results=False)
+    if missing:
+        m.missing_model('A + L', print_results=False)
+    m.marginal_structural_model('A')
+    with warnings.catch_warnings():
+        warnings.simplefilter('ignore')
+        m.fit()
+    case = {'estimator': 'IPTW', 'ytype': ytype, 'missing_model': missing, 'weighted': weighted,
+            'n': len(df), 'data_hash': hash(df.to_csv()), 'replay': rp('iptw', spec=spec, weighted=weighted)}
+    chk.count('iptw:%s/%s/%s' % (ytype, 'miss' if missing else 'full', 'w' if weighted else 'nw'))
+    tabs = [('average_treatment_effect', 'ATE', 'SE(ATE)', 'lin')] if ytype == 'continuous' else \
+        [('risk_difference', 'RD', 'SE(RD)', 'lin'), ('risk_ratio', 'RR', 'SE(log(RR))', 'log'),
+         ('odds_ratio', 'OR', 'SE(log(OR))', 'log')]
+    # closed-form sandwich on the rows the MSM was fitted on
+    d = m.df.copy()
+    w = np.asarray(m.iptw, dtype=float)
+    if m.ipmw is not None:
+        w = w * np.asarray(m.ipmw, dtype=float)
+    if weighted:
+        w = w * np.asarray(d['wt'], dtype=float)
+    keep = ~np.isnan(np.asarray(d['Y'], dtype=float)) & ~np.isnan(w)
+    aa, yy, ww = (np.asarray(d['A'], dtype=float)[keep], np.asarray(d['Y'], dtype=float)[keep], w[keep])
+    cf = msm_closed(aa, yy, ww)
+    (m1, v1), (m0, v0) = cf[1], cf[0]
+    want = {'RD': (m1 - m0, v1 + v0), 'ATE': (m1 - m0, v1 + v0),
+            'RR': (m1 / m0, v1 / m1 ** 2 + v0 / m0 ** 2)}
+    if ytype == 'binary':
+        want['OR'] = ((m1 / (1 - m1)) / (m0 / (1 - m0)),
+                      v1 / (m1 * (1 - m1)) ** 2 + v0 / (m0 * (1 - m0)) ** 2)
+    hc = dict(case, history='treatment model L fitted first, then respecified and fitted twice')
+    try:
+        h = IPTW(df, treatment='A', outcome='Y', weights='wt' if weighted else None)
+        h.treatment_model('L', print_results=False)
+        if missing:
+            h.missing_model('A', print_results=False)
+        h.marginal_structural_model('A')
+        with warnings.catch_warnings():
+            warnings.simplefilter('ignore')
+            h.fit()
+            h.treatment_model('L + V', print_results=False)
+            if missing:
+                h.missing_model('A + L', print_results=False)
+            h.fit()
+            h.fit()
+        got = {pc: tuple(float(getattr(h, attr).loc['A', k]) for k in (pc, sc, '95%LCL', '95%UCL'))
+               for attr, pc, sc, scale in tabs}
+    except Exception as e:      # noqa: BLE001
+        got = {}
+        hc['error'] = repr(e)
+    history_check(chk, 'IPTW', got,
+                  {pc: tuple(float(getattr(m, attr).loc['A', k]) for k in (pc, sc, '95%LCL', '95%UCL'))
+                   for attr, pc, sc, scale in tabs}, hc)
+    model = None
+    if drv is not None:
+        model, _ = drv.ask('msm', a=enc_list(aa, lambda v: '1' if v == 1 else '0'),
+                           y=enc_list(yy, fx), w=enc_list(ww, fx))
+    for attr, pc, sc, scale in tabs:
+        tab = getattr(m, attr)
+        for lab in tab.index:
+            est, se, lcl, ucl = (float(tab.loc[lab, k]) for k in (pc, sc, '95%LCL', '95%UCL'))
+            judge(chk, 'IPTW:%s[%s]' % (pc, lab), scale,
+                  [{'alpha': 0.05, 'est': est, 'se': se, 'lcl': lcl, 'ucl': ucl}], case,
+                  fixed_alpha=True)
+            k_ci(chk, drv, 'IPTW.%s[%s]' % (pc, lab), scale, est, z95, se, lcl, ucl, case)
+        est, se = float(tab.loc['A', pc]), float(tab.loc['A', sc])
+        we, wv = want[pc]
+        # 1e-6: GEE is iterative (its convergence tolerance), the closed form is exact
+        chk.d(close(est, we, rtol=1e-6, atol=1e-9) and close(se ** 2, wv, rtol=1e-6, atol=1e-12),
+              'IPTW %s: estimate and robust se^2 = weighted sandwich closed form (saturated MSM)' % pc,
+              dict(case, measure=pc, got=[est, se ** 2], documented=[we, wv]),
+              signature={'estimator': 'IPTW', 'measure': pc, 'clause': 'sandwich'})
+        if model is not None:
+            key = {'RD': ('rd', 'vrd'), 'ATE': ('rd', 'vrd'), 'RR': ('rr', 'vrr'), 'OR': ('or', 'vor')}[pc]
+            ok = model['status'] == 'ok' and close(unfx(model[key[0]]), est, rtol=1e-6, atol=1e-9) and \
+                close(unfx(model[key[1]]), se ** 2, rtol=1e-6, atol=1e-12)
+            chk.k(ok, 'IPTW %s: model msm sandwich vs implementation' % pc, {'case': case,
+                                                                            'model': model})
+
+
 def stream_iptw(chk, drv, rng, tier):
     from zepid.causal.ipw import IPTW
     z95 = z_of(0.05)
@@ -796,87 +1050,7 @@ def stream_iptw(chk, drv, rng, tier):
         for ytype in ('binary', 'continuous'):
             for missing in (False, True):
                 for weighted in (False, True):
-                    df = gen_causal(rng, int(rng.integers(150, 400)), ytype, missing)
-                    if not weighted:
-                        df = df.drop(columns='wt')
-                    m = IPTW(df, treatment='A', outcome='Y', weights='wt' if weighted else None)
-                    m.treatment_model('L + V', print_results=False)
-                    if missing:
-                        m.missing_model('A + L', print_results=False)
-                    m.marginal_structural_model('A')
-                    with warnings.catch_warnings():
-                        warnings.simplefilter('ignore')
-                        m.fit()
-                    case = {'estimator': 'IPTW', 'ytype': ytype, 'missing_model': missing, 'weighted': weighted,
-                            'n': len(df), 'data_hash': hash(df.to_csv())}
-                    chk.count('iptw:%s/%s/%s' % (ytype, 'miss' if missing else 'full', 'w' if weighted else 'nw'))
-                    tabs = [('average_treatment_effect', 'ATE', 'SE(ATE)', 'lin')] if ytype == 'continuous' else \
-                        [('risk_difference', 'RD', 'SE(RD)', 'lin'), ('risk_ratio', 'RR', 'SE(log(RR))', 'log'),
-                         ('odds_ratio', 'OR', 'SE(log(OR))', 'log')]
-                    # closed-form sandwich on the rows the MSM was fitted on
-                    d = m.df.copy()
-                    w = np.asarray(m.iptw, dtype=float)
-                    if m.ipmw is not None:
-                        w = w * np.asarray(m.ipmw, dtype=float)
-                    if weighted:
-                        w = w * np.asarray(d['wt'], dtype=float)
-                    keep = ~np.isnan(np.asarray(d['Y'], dtype=float)) & ~np.isnan(w)
-                    aa, yy, ww = (np.asarray(d['A'], dtype=float)[keep], np.asarray(d['Y'], dtype=float)[keep], w[keep])
-                    cf = msm_closed(aa, yy, ww)
-                    (m1, v1), (m0, v0) = cf[1], cf[0]
-                    want = {'RD': (m1 - m0, v1 + v0), 'ATE': (m1 - m0, v1 + v0),
-                            'RR': (m1 / m0, v1 / m1 ** 2 + v0 / m0 ** 2)}
-                    if ytype == 'binary':
-                        want['OR'] = ((m1 / (1 - m1)) / (m0 / (1 - m0)),
-                                      v1 / (m1 * (1 - m1)) ** 2 + v0 / (m0 * (1 - m0)) ** 2)
-                    hc = dict(case, history='treatment model L fitted first, then respecified and fitted twice')
-                    try:
-                        h = IPTW(df, treatment='A', outcome='Y', weights='wt' if weighted else None)
-                        h.treatment_model('L', print_results=False)
-                        if missing:
-                            h.missing_model('A', print_results=False)
-                        h.marginal_structural_model('A')
-                        with warnings.catch_warnings():
-                            warnings.simplefilter('ignore')
-                            h.fit()
-                            h.treatment_model('L + V', print_results=False)
-                            if missing:
-                                h.missing_model('A + L', print_results=False)
-                            h.fit()
-                            h.fit()
-                        got = {pc: tuple(float(getattr(h, attr).loc['A', k]) for k in (pc, sc, '95%LCL', '95%UCL'))
-                               for attr, pc, sc, scale in tabs}
-                    except Exception as e:      # noqa: BLE001
-                        got = {}
-                        hc['error'] = repr(e)
-                    history_check(chk, 'IPTW', got,
-                                  {pc: tuple(float(getattr(m, attr).loc['A', k]) for k in (pc, sc, '95%LCL', '95%UCL'))
-                                   for attr, pc, sc, scale in tabs}, hc)
-                    model = None
-                    if drv is not None:
-                        model, _ = drv.ask('msm', a=enc_list(aa, lambda v: '1' if v == 1 else '0'),
-                                           y=enc_list(yy, fx), w=enc_list(ww, fx))
-                    for attr, pc, sc, scale in tabs:
-                        tab = getattr(m, attr)
-                        for lab in tab.index:
-                            est, se, lcl, ucl = (float(tab.loc[lab, k]) for k in (pc, sc, '95%LCL', '95%UCL'))
-                            judge(chk, 'IPTW:%s[%s]' % (pc, lab), scale,
-                                  [{'alpha': 0.05, 'est': est, 'se': se, 'lcl': lcl, 'ucl': ucl}], case,
-                                  fixed_alpha=True)
-                            k_ci(chk, drv, 'IPTW.%s[%s]' % (pc, lab), scale, est, z95, se, lcl, ucl, case)
-                        est, se = float(tab.loc['A', pc]), float(tab.loc['A', sc])
-                        we, wv = want[pc]
-                        # 1e-6: GEE is iterative (its convergence tolerance), the closed form is exact
-                        chk.d(close(est, we, rtol=1e-6, atol=1e-9) and close(se ** 2, wv, rtol=1e-6, atol=1e-12),
-                              'IPTW %s: estimate and robust se^2 = weighted sandwich closed form (saturated MSM)' % pc,
-                              dict(case, measure=pc, got=[est, se ** 2], documented=[we, wv]),
-                              signature={'estimator': 'IPTW', 'measure': pc, 'clause': 'sandwich'})
-                        if model is not None:
-                            key = {'RD': ('rd', 'vrd'), 'ATE': ('rd', 'vrd'), 'RR': ('rr', 'vrr'), 'OR': ('or', 'vor')}[pc]
-                            ok = model['status'] == 'ok' and close(unfx(model[key[0]]), est, rtol=1e-6, atol=1e-9) and \
-                                close(unfx(model[key[1]]), se ** 2, rtol=1e-6, atol=1e-12)
-                            chk.k(ok, 'IPTW %s: model msm sandwich vs implementation' % pc, {'case': case,
-                                                                                            'model': model})
+                    cell_iptw(chk, drv, new_spec(rng, int(rng.integers(150, 400)), ytype, missing), weighted)
 
 
 def run(chk, drv, rng, tier):
@@ -895,15 +1069,50 @@ def run(chk, drv, rng, tier):
     stream_crossfit(chk, drv, rng, tier)
 
 
+CELLS = {'calc': lambda chk, **k: cell_calc(chk, None, **k), 'dtype': lambda chk, **k: cell_dtype(chk, **k),
+         'frame': lambda chk, **k: cell_frame(chk, None, **k), 'aiptw': lambda chk, **k: cell_aiptw(chk, None, **k),
+         'tmle': lambda chk, **k: cell_tmle(chk, None, **k), 'stmle': lambda chk, **k: cell_stmle(chk, None, **k),
+         'crossfit': lambda chk, **k: cell_crossfit(chk, None, **k), 'joint': lambda chk, **k: cell_joint(chk, None, **k),
+         'ic': lambda chk, **k: cell_ic(chk, None, **k), 'iptw': lambda chk, **k: cell_iptw(chk, None, **k)}
+
+
 def replay(rec):
-    """print the stored failing comparisons (they carry estimator, configuration, alpha, reported and expected
-    numbers; data sets are regenerated from tier + seed by re-running the check)"""
+    """re-execute: every stored failing case carries a replay descriptor (cell + arguments: function name and counts,
+    the frame, or the data-set seed and configuration); the cell is run again on the implementation under test and the
+    same predicates are evaluated.  Exit 1 iff a predicate fails again (known findings do not count)."""
+    import json
+    import common
+    warnings.simplefilter('ignore')
+    seen, rc = set(), 0
     for f in rec.get('failures', []):
-        c = f['case']
-        print('what:', f['what'])
-        for k in ('who', 'estimator', 'ytype', 'missing_model', 'weighted', 'method', 'measure', 'record', 'want',
-                  'got', 'documented', 'wider_alpha', 'narrower_alpha', 'fn', 'args'):
-            if isinstance(c, dict) and k in c:
-                print('   %s: %s' % (k, c[k]))
-    print('re-run: VERIF_SEED=%s harness/check.py C06 --tier %s' % (rec.get('seed'), rec.get('tier')))
-    return 1 if rec.get('failures') else 0
+        c = f.get('case') or {}
+        d = c.get('replay') if isinstance(c, dict) else None
+        if d is None:
+            print('no replay descriptor stored for:', f.get('what'))
+            continue
+        key = json.dumps(d, sort_keys=True, default=str)
+        if key in seen:
+            continue
+        seen.add(key)
+        chk = common.Check('C06', 'replay', int(rec.get('seed', 0) or 0))
+        with common.quiet():
+            try:
+                CELLS[d['cell']](chk, **d['kwargs'])
+                err = None
+            except Exception as e:      # noqa: BLE001
+                err = repr(e)
+        print('cell %s %s' % (d['cell'], {k: v for k, v in d['kwargs'].items() if k != 'frame'}))
+        if err:
+            print('   raised:', err)
+            rc = 1
+        print('   predicates evaluated: %d, failing: %d, known findings: %s'
+              % (chk.d_cases, len(chk.d_fail), sorted(chk.known_hits)))
+        for g in chk.d_fail[:6]:
+            gc = g['case'] if isinstance(g['case'], dict) else {}
+            print('   FAIL', g['what'])
+            for k in ('record', 'want', 'got', 'documented', 'refit', 'fresh', 'plain', 'measure', 'p', 'alpha'):
+                if k in gc:
+                    print('        %s: %s' % (k, gc[k]))
+        if chk.d_fail:
+            rc = 1
+    return rc
